@@ -376,6 +376,11 @@ impl<'a> Parser<'a> {
         let start = self.current.span;
         let id = self.parse_binding_pattern()?;
 
+        // Definite assignment assertion: let x!: T;
+        if self.check(&TokenKind::Bang) && self.peek_is(&TokenKind::Colon) {
+            self.advance();
+        }
+
         // Optional type annotation
         let type_annotation = if self.match_token(&TokenKind::Colon) {
             Some(Box::new(self.parse_type_annotation()?))
